@@ -65,9 +65,15 @@ def build_docs(rng, n_create, n_delete, n_other, n_replace, two_ids, dup_ids=Fal
     if blank_id:
         # the ONE running-order ID every message shares is the blank one
         docs = [d.replace('<roID>RO</roID>', '<roID/>') for d in docs]
+    numeric = (not blank_id) and rng.random() < 0.25
+    if numeric:
+        # running-order IDs are text: "12", "012" and "+12" name three running orders
+        docs = [d.replace('<roID>RO</roID>', '<roID>12</roID>') for d in docs]
     if two_ids and len(docs) >= 2:
         j = rng.randrange(len(docs))
-        docs[j] = docs[j].replace('<roID>RO</roID>', rng.choice(['<roID>OTHER</roID>', '<roID />', '<roID> RO</roID>']), 1)
+        if numeric:
+            docs[j] = docs[j].replace('<roID>12</roID>', rng.choice(['<roID>012</roID>', '<roID>+12</roID>', '<roID>12.0</roID>']), 1)
+        docs[j] = docs[j].replace('<roID>RO</roID>', rng.choice(['<roID>OTHER</roID>', '<roID />', '<roID> RO</roID>', '<roID>ro</roID>']), 1)
     if rng.random() < 0.5 and len(docs) >= 2:
         # hand the message IDs out again in a random order: the roCreate need not be the first message
         import re
